@@ -347,6 +347,14 @@ func VerifC12Pool() {
 	}
 	info, err := hackpadfs.Stat(tfs, "big")
 	verifAssert(err == nil && info.Size() == int64(big), "large entry missing or of the wrong size")
+	bf, err := tfs.Open("big")
+	verifAssert(err == nil, "Open of the large entry failed")
+	one := make([]byte, 1)
+	for _, pos := range []int{0, 1, 511, 512, 153598, 153599, 153600} {
+		cnt, _ := hackpadfs.ReadAtFile(bf, one, int64(pos))
+		verifAssert(cnt == 1 && int(one[0]) == (1+pos*7)%256, "bytes of the large entry differ from the archive")
+	}
+	_ = bf.Close()
 }
 
 // c12ReadFile returns the file's bytes; for large files only the length and the sampled positions are
